@@ -16,6 +16,7 @@ EXPLANATION = (
     "an empty needle never reaches an index, and the search is skipped (None) only for a needle LONGER than the haystack. C11.4 split points: path_file_name returns the suffix starting one past the separator it found, under the guard that something follows; parent_path cuts before the separator (C10 checks the terminator). "
     "C11.6 separator accounting in path_join / path_join_fmt: on every path that appends the extension, (base ends with '/') + (extension starts with '/') + ('/' pushed) - (leading '/' skipped) == 1 with both facts tested on that path, and the extension is appended once. "
     "C11.7 ends_with answers true only after the needle's first byte was compared (dominating `needle index == 0`, exhausted needle, or a counting loop whose last round compares index 0). "
+    "C11.4 also: path_file_name scans the whole string and returns a name only under index + 2 < len (linear form). "
     "NOT decided: agreement of the results with the byte-string definitions for all operand pairs (first occurrence, suffix test, prefix length) - value-level.")
 ASSUMPTIONS = ["slices and vectors are at most isize::MAX long", "reviewed table of loop-invariant arithmetic (see rule module)"]
 
